@@ -71,6 +71,16 @@ pub fn run(ctx: &mut Ctx) {
     ctx.run_proptest("single-sentences", &STD, n, strat, check);
     let n = ctx.tier.pick(24_000, 200_000);
     ctx.run_proptest("completed-groups", &STD, n, inorder_group_history(), check);
+    // the fields a sentence reports are the same in every build (the no-allocator build differs only by
+    // rejecting payloads beyond its capacity, which the judge knows)
+    for cfg in crate::adapter::configs().into_iter().skip(1) {
+        let strat = wellformed_spec().prop_map(|s| {
+            let b = s.render();
+            Input::History { lines: vec![Line::new(b.clone(), false), Line::new(b, true)] }
+        });
+        ctx.run_proptest("single-sentences", cfg, n, strat, check);
+        ctx.run_proptest("completed-groups", cfg, n / 2, inorder_group_history(), check);
+    }
     // counts and numbers over their whole range (0..255) after any history: a sentence numbered 1 (or 0)
     // continues nothing, so if it is accepted its fields and payload are its own
     let odd = (crate::gen::sentence::adversarial_events(10), proptest::collection::vec((prop::sample::select(vec![(0u32, 1u32), (0, 0), (1, 0), (2, 0), (0, 1), (255, 0), (0, 1)]), prop_oneof![Just(None), (0u32..4).prop_map(Some)], crate::gen::sentence::token_payload(), any::<bool>()), 1..4)).prop_map(|(evs, odds)| {
